@@ -691,6 +691,12 @@ def replay(item, tier, seed):
         sp.run(case, seq, out)
     elif h and h[0] == "c05-literal":
         sp.literal_case(((h[1], h[2], h[3]), h[4], h[5], h[6]), out)
+    elif h and h[0] == "c05-conflict":
+        sp.creation_conflict_case((h[1], h[2], h[3], h[4]), out)
+    elif h and h[0] == "c05-subtype":
+        sp.subtype_case((h[1], h[2], h[3]), out)
+    elif h and h[0] == "c05-shared-list":
+        sp.shared_list_case((h[1], h[2]), out)
     vs, _ = runner.violations_json(sp, out)
     return {"property": "C05", "coverage": {"states": 1, "transitions": 1, "traces_validated_against_impl": 1,
             "samples": [{"replayed": h}]}, "violations": vs, "wall_s": 0}
